@@ -84,12 +84,14 @@ CHUNKS = {
     'plain': {1: (MOD_A1, ['A']), 2: (MOD_A2, ['A']), 3: (MOD_B1, ['B']), 4: (MOD_B2, ['B'])},
     'split': {1: (MOD_A1, ['A']), 2: (MOD_X, ['X']), 3: (MOD_B_LINE, ['B'])},
     'broken': {1: (MOD_A1, ['A']), 9: (MOD_BROKEN, []), 3: (MOD_B1, ['B']), 4: (MOD_B2, ['B'])},
+    'dup': {1: (MOD_A1, ['A']), 2: (MOD_A2, ['A'])},       # one module name in both files: the later file wins
 }
 # Content of spec/Cache.tla: path -> version -> chunk sequence
 CONTENT = {
     'plain': {'a': {1: [1], 2: [2]}, 'b': {1: [3], 2: [4]}},
     'split': {'a': {1: [1], 2: [1, 2]}, 'b': {1: [2, 3], 2: [3]}},
     'broken': {'a': {1: [1], 2: [9]}, 'b': {1: [3], 2: [4]}},
+    'dup': {'a': {1: [1], 2: [1]}, 'b': {1: [2], 2: [2]}},
 }
 ADB_LOCATION = {'A': ('A', 'Q', 'val'), 'B': ('B', 'R', 'val'), 'X': ('X', 'XQ', 'val')}
 ADB_VARIANT = {1: {1: 'INTEGER', 2: 'BOOLEAN'}, 2: {1: 'BOOLEAN', 2: 'OCTET STRING'}}
